@@ -1,4 +1,6 @@
 import RbV.Ref.EditDist
+import RbV.Lemmas.UkkonenEq
+import RbV.Lemmas.MyersStep
 /-!
 # C09 — approximate matchers and distance functions equal the edit-distance definition
 
@@ -158,7 +160,39 @@ theorem hamming_count (a b : List Nat) (d : Nat) (h : hamming a b = some d) :
         · have hb : (x != y) = true := by simp [hxy]
           simp only [hxy, if_false, hb, if_true, List.length_cons] at h ⊢; omega
 
+/-- **[B] Ukkonen**: the mirror model of `ukkonen.rs` (two alternating buffers, only cells `0..=lastk` of a column
+are written, `lastk` grows by at most one per text symbol and is cut back while the cell exceeds `k`, a pair is
+reported when `lastk = m`) reports exactly the expected pairs — for every cost function (insertion/deletion 1),
+pattern, text and `k`.  The invariant (`Model.Ukkonen.Inv`): cells up to `lastk` are exact, the true values above
+`lastk` exceed `k`, and anything a buffer still holds above `lastk` is at least `k`. -/
+theorem ukkonen_eq (w : Nat → Nat → Nat) (p t : List Nat) (k : Nat) :
+    RbV.Model.Ukkonen.findAllEnd w p t k = hits w p t k :=
+  RbV.Model.Ukkonen.findAllEnd_eq_hits w p t k
+
+/-- **[C] Myers' bit-vector step** (`Myers::_step`, single word of any width `w`): if `pv`/`mv` encode the vertical
+differences of a Sellers column `C` (rows 0..m, `m ≤ w`) and `dist = C m`, then after the step — `xh` by the addition
+trick `((eq & pv) + pv) ^ pv | eq` with wrap-around, `ph`/`mh`, the update of `dist` from bit `m-1`, the shifts and the
+new `pv`/`mv` — they encode the next column `nextC C eq` and `dist` is its last entry. -/
+theorem myers_step {w : Nat} (m : Nat) (hm1 : 1 ≤ m) (hm : m ≤ w) (C : Nat → Int) (eq : BitVec w)
+    (s : RbV.Model.MyersSimple.St w) (enc : RbV.Model.MyersSimple.Enc m C s.pv s.mv) (hd : (s.dist : Int) = C m)
+    (hnn : 0 ≤ RbV.Model.MyersSimple.nextC C eq.getLsbD m) :
+    RbV.Model.MyersSimple.Enc m (RbV.Model.MyersSimple.nextC C eq.getLsbD)
+      (RbV.Model.MyersSimple.step m eq s).pv (RbV.Model.MyersSimple.step m eq s).mv ∧
+    ((RbV.Model.MyersSimple.step m eq s).dist : Int) = RbV.Model.MyersSimple.nextC C eq.getLsbD m :=
+  RbV.Model.MyersSimple.step_enc m hm1 hm C eq s enc hd hnn
+
+/-- **[C] Myers, single word, end to end**: for a pattern of 1 … w symbols the mirror model of
+`Myers<T>::find_all_end` (w-bit words, `peq` masks built from the symbol equivalence, `State::init`, `_step` per text
+symbol, report when `dist ≤ k`) returns exactly the expected pairs — every width, equivalence (ambiguity map,
+wildcards), pattern, text and k.  (The block-based version `long::Myers` has no mirror model.) -/
+theorem myers_simple_eq (w : Nat) (eqv : Nat → Nat → Bool) (p t : List Nat) (k : Nat)
+    (hm1 : 1 ≤ p.length) (hw : p.length ≤ w) :
+    RbV.Model.MyersSimple.findAllEnd w eqv p t k = hits (unitW eqv) p t k :=
+  RbV.Model.MyersSimple.findAllEnd_eq_hits w eqv p t k hm1 hw
+
 -- non-vacuity: concrete instances
+example : RbV.Model.MyersSimple.findAllEnd 8 eqSym [1, 2, 1] [1, 2, 1, 3, 1, 1] 1 = [(1, 1), (2, 0), (3, 1), (4, 1), (5, 1)] := by decide
+example : RbV.Model.Ukkonen.findAllEnd (unitW eqSym) [1, 2, 1] [1, 2, 1, 3, 1, 1] 1 = [(1, 1), (2, 0), (3, 1), (4, 1), (5, 1)] := by decide
 example : ed (unitW eqSym) [1, 2, 3] [1, 3] = 1 := by rw [← edFast_eq]; decide
 example : lastRow (unitW eqSym) [1, 2, 1] [1, 2, 1, 3, 1, 1] = [2, 1, 0, 1, 1, 1] := by decide
 example : hits (unitW eqSym) [1, 2, 1] [1, 2, 1, 3, 1, 1] 0 = [(2, 0)] := by decide
